@@ -6,6 +6,21 @@ VERIF = os.path.dirname(os.path.dirname(os.path.abspath(__file__)))
 BASE = "cd /repo && /venv/bin/python -m pytest -ra -q -p no:cacheprovider --timeout=900 --continue-on-collection-errors"
 
 CLAIMED = {
+    "C09": dict(
+        text="Coq theorems over executable models of declast.Parser.pointer/declarator (Model/Decl.v) and the unparser "
+             "Ptr/Declarator/Declaration.gen_decl_work (Model/Render.v): every pointer/reference chain with const/volatile at "
+             "every level, and every declarator to any nesting depth, is recorded exactly as written (token level, unbounded); the "
+             "C rendering of a declarator is the rendering of its pointer form. Table theorems over regenerated tables: every "
+             "accepted list of type-specifier words (complete to 4 words, longer never accepted) denotes by the C++ rules the "
+             "type of the typemap it resolves to; the model's canonical map is the source's. Tie: extracted parse+render vs "
+             "declast.check_decl / gen_decl. Search: parse(render(parse d)) on the implementation; g++ std::is_same / type "
+             "traits against the renderings and the recorded pointer depth, reference, const, volatile; gcc for C renderings.",
+        note="Trusted: Coq kernel, extraction, OCaml driver, Python harness, g++/gcc as the reference reading of C++/C. Not "
+             "proved: the full parse/render/parse round trip and the specifier/parameter phases of the parser (evaluated on "
+             "model and implementation only). Template arguments, attributes and default values are covered by the round-trip "
+             "evaluation, not by a theorem.",
+        technique="Coq proof over hand model + regenerated-table theorems + extracted-model correspondence; compiler oracle for the search",
+        design="4/C09"),
     "C17": dict(
         text="Coq theorems over executable models of declast.tokenize / Parser.decl_statement (Model/Decl.v) and "
              "generate.VerifyAttrs (Model/Attrs.v): for every text and scope the parser never ends in an internal exception, "
